@@ -83,11 +83,17 @@ func execute(op txm.Op, failCall, failHook int) runResult {
 }
 
 func executeCause(op txm.Op, failCall, failHook int, cause error) runResult {
+	return executeCauseBare(op, failCall, failHook, cause, false)
+}
+
+// bare: the failing hook returns the cause itself (no wrapper of the harness around it)
+func executeCauseBare(op txm.Op, failCall, failHook int, cause error, bare bool) runResult {
 	restore()
 	txm.ResetHooks()
 	txm.H.FailAt = failHook
 	txm.H.Cause = cause
-	defer func() { txm.H.Cause = nil }()
+	txm.H.Bare = bare
+	defer func() { txm.H.Cause, txm.H.Bare = nil, false }()
 	var count int64
 	if failCall > 0 {
 		H.Rec.SetHook(recdrv.FailNth(failCall, &recdrv.ErrInjected{At: fmt.Sprintf("driver call %d", failCall), Cause: cause}, &count))
@@ -270,9 +276,15 @@ func run(c *core.Ctx) {
 	}
 	for j := 1; j <= J; j++ {
 		cause := core.Pick(c.R, causes)
-		r := executeCause(op, 0, j, cause)
+		bare := cause != nil && c.R.Intn(2) == 0
+		r := executeCauseBare(op, 0, j, cause, bare)
 		hk := ff.hookLog[j-1]
-		check(fmt.Sprintf("hook-%d-of-%d(%s)%s", j, J, hk.Hook+":"+hk.Type, causeName(cause)), r, true)
+		bn := ""
+		if bare {
+			bn = "(bare)"
+			c.Inc("hook_failing_with_a_bare_error_value")
+		}
+		check(fmt.Sprintf("hook-%d-of-%d(%s)%s%s", j, J, hk.Hook+":"+hk.Type, causeName(cause), bn), r, true)
 		if cause != nil {
 			c.Inc("fault_wrapping_" + cause.Error())
 		}
